@@ -224,6 +224,50 @@ func ruleIfaceTypes(p *Prog, r *Report) {
 			}
 		}
 	}
+	// a factory handed on as a function value (a table or a parameter of a
+	// shared decoding helper) is called where no static call names it: the
+	// types that arrive are read off the item decoder, evaluated on an item of
+	// every format that factory builds
+	for _, fn := range p.Funcs {
+		seenVal := map[string]bool{}
+		for _, b := range fn.Blocks {
+			for _, instr := range b.Instrs {
+				var callee *ssa.Function
+				if c, isCall := instr.(ssa.CallInstruction); isCall {
+					callee = c.Common().StaticCallee()
+				}
+				for _, op := range instr.Operands(nil) {
+					if op == nil || *op == nil {
+						continue
+					}
+					var f *ssa.Function
+					switch x := (*op).(type) {
+					case *ssa.Function:
+						f = x
+					case *ssa.ChangeType:
+						f, _ = x.X.(*ssa.Function)
+					}
+					if f == nil || f == callee || !isFactory(f) || accepted[f.Name()] == nil || seenVal[f.Name()] {
+						continue
+					}
+					seenVal[f.Name()] = true
+					nProd++
+					key := fmt.Sprintf("%s:producer:%s->%s#value", rule, FnName(fn), f.Name())
+					if fn.Pkg != nil && fn.Pkg.Pkg.Name() == "hsms" {
+						if names, bad2, ok := decoderProducedTypes(p, f.Name(), accepted[f.Name()]); ok {
+							if len(bad2) > 0 {
+								r.bad(rule, key, p.Pos(instr.Pos()), FnName(fn)+" "+strings.Join(bad2, "; "))
+							} else {
+								r.ok(rule, key, p.Pos(instr.Pos()), "the factory is handed on as a function value; evaluated from the item decoder for every format it builds, it receives values of dynamic type "+strings.Join(names, ", "))
+							}
+							continue
+						}
+					}
+					r.unk(rule, key, p.Pos(instr.Pos()), f.Name()+" is used as a function value in "+FnName(fn)+": the values it is called with there could not be determined")
+				}
+			}
+		}
+	}
 	r.Floor(rule, 6+17)
 	_ = nProd
 }
